@@ -308,6 +308,39 @@ def join_cases(draw):
             "use_collection": draw(st.booleans()), "edits": edits}
 
 
+def nn_mixed_cases(tier):
+    """n-n joins whose key columns have different dtypes within one dataset, with keys that differ only in what a narrower dtype
+    would cut off; every selection threshold, both directions"""
+    import itertools
+    variants = [
+        # (dtypes of the two key columns, values of the second column on both sides)
+        (("U1", "U5"), ["a", "ab", "abc", "a", "b"], ["ab", "a", "abc", "b", "abc"]),
+        (("U5", "U1"), ["a", "ab", "abc", "a", "b"], ["ab", "a", "abc", "b", "abc"]),
+        (("i8", "f8"), [1.25, 1.75, 1.0, 2.5, 1.25], [1.75, 1.25, 1.0, 2.0, 2.5]),
+        (("f8", "i8"), [1.25, 1.75, 1.0, 2.5, 1.25], [1.75, 1.25, 1.0, 2.0, 2.5]),
+        (("i4", "i8"), [1, 2 ** 33 + 1, 3, 1, 2], [2 ** 33 + 1, 1, 3, 2, 2 ** 33 + 1]),
+    ]
+    for (dt1, dt2), left, right in variants:
+        strings = dt1.startswith("U")
+        first = ["a", "a", "a", "b", "b"] if strings else [1, 1, 1, 2, 2]
+
+        def col(dt, vals):
+            if dt.startswith("U"):
+                return {"dtype": dt, "vals": [str(v)[:int(dt[1:])] if dt == "U1" else str(v) for v in vals]}
+            if dt.startswith("i"):
+                return {"dtype": dt, "vals": [int(v) for v in vals]}
+            return {"dtype": dt, "vals": [float(v) for v in vals]}
+        # the first key column is constant-ish, the second one distinguishes the rows; a third column carries the selection
+        sel_vals = [0, 1, 2, 3, 4]
+        d0 = {"n": 5, "cols": [col(dt1, first), col(dt2, left), {"dtype": "i8", "vals": sel_vals}]}
+        d1 = {"n": 5, "cols": [col(dt1, first), col(dt2, right), {"dtype": "i8", "vals": sel_vals}]}
+        for src, thr in itertools.product((0, 1), (0.0, 1.0, 2.0, 3.0)):
+            yield {"datasets": [d0, d1], "joins": [{"a": 0, "b": 1, "ca": [0, 1], "cb": [0, 1], "via_link": False}],
+                   "selection": {"kind": "one", "data": src, "col": 2, "op": "gt", "thr": thr}, "target": 1 - src, "pre": [], "view": ["none"],
+                   "use_collection": False, "edits": []}
+
+
 def checks(tier):
     n = {"quick": 12000, "thorough": 40000}.get(tier, 10)
-    return [Check("joins", fn_join, strategy=join_cases(), examples=n)]
+    return [Check("joins", fn_join, strategy=join_cases(), examples=n),
+            Check("nn_joins_mixed_key_dtypes", fn_join, enum=nn_mixed_cases)]
